@@ -23,7 +23,7 @@ pub fn def() -> PropDef {
     PropDef {
         id: "C18",
         level: "exploration",
-        rule: "file-backed stores built from every subset of size <= k of a 16-entry universe (2 documents x 2 authors x keys {'',a,ab}, equal timestamps, deletion markers), flushed and closed; then, with plain redb, the per-author head table, the by-key index, both or neither are deleted and the store is reopened 1..3 times (each subset offered in universe order and in reverse order, so that on equal timestamps the maintained head is not always the one at the greatest key); heads must equal the per-author maximum over the records, key-ordered queries (flat key-author and latest-per-key, both directions, with and without empties) must equal the query oracle, and without deletion the whole observable content must be identical after every reopen; a large database (2100 authors in one document, two entries each, the newest at the smaller key for every other author) goes through the same four variants with two reopen cycles; non-trivial = a non-empty store with at least one derived table deleted",
+        rule: "file-backed stores built from every subset of size <= k of a 16-entry universe (2 documents x 2 authors x keys {'',a,ab}, equal timestamps, deletion markers), flushed and closed; then, with plain redb, the per-author head table, the by-key index, both or neither are deleted and the store is reopened 1..3 times; in two further variants the file is also given the shape of the oldest versions (documents listed in table namespaces-1, the current table absent, both derived tables absent) (each subset offered in universe order and in reverse order, so that on equal timestamps the maintained head is not always the one at the greatest key); heads must equal the per-author maximum over the records, key-ordered queries (flat key-author and latest-per-key, both directions, with and without empties) must equal the query oracle, and without deletion the whole observable content must be identical after every reopen; a large database (2100 authors in one document, two entries each, the newest at the smaller key for every other author) goes through the same four variants with two reopen cycles; non-trivial = a non-empty store with at least one derived table deleted",
         assumptions: &["tables are deleted whole (as an older version would simply not have them); partially filled derived tables are outside the statement", "where several keys attain an author's maximal timestamp any of them is accepted as the head's key"],
         bound: |t| match t {
             Tier::Quick => json!({"subsets": "<= 4 of 16 (2517 stores)", "variants": "4 x 2 arrival orders", "reopen_cycles": "1..3", "large": "2100 authors x 2 entries x 4 variants"}),
@@ -134,11 +134,37 @@ fn run_case(offered: &[Spec], variant: u8) -> (Vec<(&'static str, String)>, u64)
         o
     };
     let reversed = variant & 4 != 0;
+    // bit 3: the documents are listed the way the oldest versions did it (table namespaces-1:
+    // id -> secret), the current table does not exist yet
+    let old_namespaces = variant & 8 != 0;
     let variant = variant & 3;
     let _ = reversed;
-    if variant != 0 {
+    if variant != 0 || old_namespaces {
         let db = redb::Database::create(&path).expect("plain redb open");
         let tx = db.begin_write().expect("begin_write");
+        if old_namespaces {
+            const NS2: TableDefinition<&[u8; 32], (u8, &[u8; 32])> = TableDefinition::new("namespaces-2");
+            const NS1: TableDefinition<&[u8; 32], &[u8; 32]> = TableDefinition::new("namespaces-1");
+            let rows: Vec<([u8; 32], u8, [u8; 32])> = {
+                let t = tx.open_table(NS2).expect("namespaces-2");
+                let v = redb::ReadableTable::iter(&t).expect("iter").map(|r| {
+                    let (k, v) = r.expect("row");
+                    let (kind, bytes) = v.value();
+                    (*k.value(), kind, *bytes)
+                }).collect();
+                v
+            };
+            {
+                let mut t1 = tx.open_table(NS1).expect("namespaces-1");
+                for (id, kind, bytes) in &rows {
+                    if *kind != 1 {
+                        bad.push(("MACHINERY_table_deleted", "a read-only document cannot be written into namespaces-1".to_string()));
+                    }
+                    t1.insert(id, bytes).expect("insert v1");
+                }
+            }
+            tx.delete_table(NS2).expect("delete namespaces-2");
+        }
         if variant & 1 != 0 {
             tx.delete_table(HEADS).expect("delete heads");
         }
@@ -397,7 +423,7 @@ fn run(ctx: &Ctx, report: &mut Report) {
     let mut ordinal = 0u64;
     for sub in subsets_up_to(u.len(), k) {
         let offered: Vec<Spec> = sub.iter().map(|&i| u[i].clone()).collect();
-        for variant in 0u8..8 {
+        for variant in [0u8, 1, 2, 3, 4, 5, 6, 7, 11, 15] {
             if variant & 4 != 0 && offered.len() < 2 {
                 continue;
             }
